@@ -2,7 +2,8 @@
 # Offline build of the whole framework: constants, Coq project, extraction, OCaml driver.
 set -e
 cd "$(dirname "$0")"
-export PYTHONPATH=/repo PYTHONHASHSEED=0 PYTHONDONTWRITEBYTECODE=1
+export VERIF_REPO="${VERIF_REPO:-/repo}"
+export PYTHONPATH="$VERIF_REPO" PYTHONHASHSEED=0 PYTHONDONTWRITEBYTECODE=1
 /venv/bin/python - <<'PY'
 import sys
 sys.path.insert(0, "harness")
